@@ -2,9 +2,10 @@
 # seedregress.sh: re-applies every stored seeded change to a scratch worktree of /repo HEAD and confirms
 # (VERIF_SEED selects the seed; log in /tmp/seedregress-<seed>.log) that the quick tier of the property it breaks (or the check named in meta.json caught_by) reports it.
 export GOFLAGS=-mod=mod GOPROXY=off
+D=$(cd "$(dirname "$0")" && pwd)   # works from a snapshot too (vp run -- env VERIF_SEED=2 ./seedregress.sh)
 seed=${VERIF_SEED:-1}
 out=/tmp/seedregress-$seed.log; : > $out
-for d in /verif/seeded/*/; do
+for d in $D/seeded/*/; do
   id=$(basename $d); prop=${id%%-*}
   checks=$(python3 -c "import json;m=json.load(open('$d/meta.json'));print(' '.join(m.get('caught_by') or ['$prop']))")
   w=/tmp/sr$seed-$id
@@ -16,12 +17,12 @@ for d in /verif/seeded/*/; do
   if ! (cd $w && go build ./... >/dev/null 2>&1); then echo "$id: does not build (skipped)" >> $out; git -C /repo worktree remove --force $w; continue; fi
   res="MISSED"
   for p in $checks; do
-    VERIF_REPO=$w VERIF_SEED=$seed /verif/check $p quick >/tmp/sr$seed-$id.out 2>&1; rc=$?
+    VERIF_REPO=$w VERIF_SEED=$seed $D/check $p quick >/tmp/sr$seed-$id.out 2>&1; rc=$?
     if [ $rc -eq 1 ]; then res="caught by $p"; break; fi
     [ $rc -eq 2 ] && res="INCONCLUSIVE ($p)"
   done
   echo "$id: $res" >> $out
   git -C /repo worktree remove --force $w
 done
-rm -rf /verif/replays
+rm -rf $D/replays
 echo "done: $(grep -c caught $out) caught, $(grep -c MISSED $out) missed, $(grep -c skipped $out) skipped, $(grep -c INCONCLUSIVE $out) inconclusive" >> $out
